@@ -8,6 +8,9 @@ import NavisModel.Drv.C16
 import NavisModel.Drv.C15
 import NavisModel.Drv.C06
 import NavisModel.Drv.C02
+import NavisModel.Drv.C03
+import NavisModel.Drv.C07
+import NavisModel.Drv.C14
 /-! `navisdrv`: one request per line on stdin (`<prop>.<cmd> <payload>`), one answer per line on stdout. -/
 open Navis
 
@@ -23,6 +26,9 @@ def handle (head rest : String) : Option String :=
   | ["c15", cmd] => Drv.C15.run cmd rest
   | ["c06", cmd] => Drv.C06.run cmd rest
   | ["c02", cmd] => Drv.C02.run cmd rest
+  | ["c03", cmd] => Drv.C03.run cmd rest
+  | ["c07", cmd] => Drv.C07.run cmd rest
+  | ["c14", cmd] => Drv.C14.run cmd rest
   | ["ping"] => some "pong"
   | _ => none
 
